@@ -378,6 +378,8 @@ def random_runs(ctx, pool, cov, runs, judge_graphs=False):
         agg["max_tree_levels"] = max(agg["max_tree_levels"], st.get("levels", 0))
         agg["graphs_judged_by_tlc"] += info.get("graphs", 0)
         agg["tlc_states"] += info.get("states", 0)
+        agg["flushes_failed"] = agg.get("flushes_failed", 0) + st.get("flushes-failed", 0)
+        agg["evicted_after_failed_flush"] = agg.get("evicted_after_failed_flush", 0) + st.get("evicted-after-failed-flush", 0)
         agg["pages_round_tripped"] = agg.get("pages_round_tripped", 0) + st.get("pages-round-tripped", 0)
         agg["cachefull_statements_restarted"] = agg.get("cachefull_statements_restarted", 0) + st.get("cachefull-stmts", 0)
         agg["order_events_accepted_by_walorder"] = agg.get("order_events_accepted_by_walorder", 0) + info.get("order", 0)
